@@ -767,90 +767,6 @@ Proof.
   - rewrite nth_overflow by exact Hi. exact dflt_arr_wf.
 Qed.
 
-(* ------------------------------------------------------------------ one step and whole programs *)
-Definition covered (a : darr) (o : op) : bool :=
-  match o with
-  | OTranspose _ | OSwapaxes _ _ | ORollaxis _ _ | ORepeat _ _ _ | OSqueeze _
-  | OReduce _ _ AxNone | OReduce _ _ (AxOne _) | OCum _ _ _ | ODiff _ _ _ _ | OArgExt _ _ | ODropna _ _
-  | OGet _ _ _ | OPut _ _ _ _ | OScalarOp _ _ _ _ | ONdarrayOp _ _ | OReindex _ _ _ _ _ _ _ | OReindexAxisObj _ | OReindexLike _
-  | OFillna _ _ | OSetna _ | OSetnaMask _ | OPutMask _ _ _ | OTakeAxisLabel _ _ | OTakeAxisPos _ _ | OCompressAxis _ _
-  | OSortAxis _ | OSortAxisKey _ _ | OInterp _ _ _ _ _ | OInterpLike _ _ _ | OSetLabel _ _ _ _ | OSetDims _ | OIdentity
-  | OAlign _ _ _ | OBinop _ _ | OBinopR _ _ | OBroadcastArrays | OBroadcastTo _ => true
-  | OBroadcast axs => negb (existsb (String.eqb "") (map aname axs))
-  | ONewaxis n _ _ => negb (String.eqb n "")
-  | ORenameAxis r n => match axis_info a r with Ok i => negb (mem_str n (remove_nth i (dims a))) | Err _ => true end
-  | _ => false
-  end.
-
-Theorem apply_op_wf ins o a v : Forall WF ins -> WF a -> covered a o = true -> apply_op ins o a = Ok v -> WFv v.
-Proof.
-  intros Hins Hw Hc H. destruct o; simpl in Hc; try discriminate; simpl in H; unfold arr1 in H.
-  - destruct (transpose rs a) eqn:E; simpl in H; [|discriminate]. injection H as <-. eapply transpose_wf; eassumption.
-  - destruct (swapaxes r1 r2 a) eqn:E; simpl in H; [|discriminate]. injection H as <-. eapply swapaxes_wf; eassumption.
-  - destruct (rollaxis r start a) eqn:E; simpl in H; [|discriminate]. injection H as <-. eapply rollaxis_wf; eassumption.
-  - destruct (repeat k labs r a) eqn:E; simpl in H; [|discriminate]. injection H as <-. eapply repeat_wf; eassumption.
-  - destruct (newaxis name v0 pos a) eqn:E; simpl in H; [|discriminate]. injection H as <-.
-    eapply newaxis_wf; [|exact Hw | exact E]. intros ->. discriminate.
-  - destruct (squeeze r a) eqn:E; simpl in H; [|discriminate]. injection H as <-. eapply squeeze_wf; eassumption.
-  - destruct (broadcast axs a) eqn:E; simpl in H; [|discriminate]. injection H as <-. eapply broadcast_wf; [|exact Hw | exact E].
-    apply negb_true_iff in Hc. intros Hin. apply existsb_str_In in Hin. exact (eq_true_false_abs _ Hin Hc).
-  - destruct (broadcast _ a) eqn:E; simpl in H; [|discriminate]. injection H as <-. eapply broadcast_wf; [|exact Hw | exact E].
-    destruct (nth_ins_wf ins i Hins) as [_ [_ He]]. exact He.
-  - eapply getitem_wf; eassumption.
-  - destruct (setitem f tol r cast a) eqn:E; simpl in H; [|discriminate]. injection H as <-. eapply setitem_wf; eassumption.
-  - destruct (setmask m r cast a) eqn:E; simpl in H; [|discriminate]. injection H as <-. eapply setmask_wf; eassumption.
-  - destruct (reindex_axis k news r fill fk raise_error m a) eqn:E; simpl in H; [|discriminate]. injection H as <-. eapply reindex_axis_wf; eassumption.
-  - destruct (reindex_to_axis nx a) eqn:E; simpl in H; [|discriminate]. injection H as <-. eapply reindex_to_axis_wf; eassumption.
-  - destruct (reindex_like _ a) eqn:E; simpl in H; [|discriminate]. injection H as <-. eapply reindex_like_wf; eassumption.
-  - destruct (align ins j ax sort false) as [l|] eqn:E; simpl in H; [|discriminate]. injection H as <-. simpl. eapply align_wf; eassumption.
-  - destruct (operation o a _) eqn:E; simpl in H; [|discriminate]. injection H as <-. eapply operation_wf; [exact Hw | apply nth_ins_wf; exact Hins | exact E].
-  - destruct (operation o _ a) eqn:E; simpl in H; [|discriminate]. injection H as <-. eapply operation_wf; [apply nth_ins_wf; exact Hins | exact Hw | exact E].
-  - destruct (op_scalar o c k reflected a) eqn:E; simpl in H; [|discriminate]. injection H as <-. eapply op_scalar_wf; eassumption.
-  - destruct (op_ndarray o w a) eqn:E; simpl in H; [|discriminate]. injection H as <-. eapply op_ndarray_wf; eassumption.
-  - destruct (sort_axis r a) eqn:E; simpl in H; [|discriminate]. injection H as <-. eapply sort_axis_wf; eassumption.
-  - destruct (axis_info a r) as [i|]; simpl in H; [|discriminate]. destruct (negb _); [discriminate|]. injection H as <-. apply take_axis_pos_wf. exact Hw.
-  - destruct (broadcast_arrays ins) as [l|] eqn:E; simpl in H; [|discriminate]. injection H as <-. simpl. eapply broadcast_arrays_wf; eassumption.
-  - destruct ax; try discriminate; unfold reduce_any in H; eapply reduce_wf; eassumption.
-  - destruct (cumulative prod skipna r a) eqn:E; simpl in H; [|discriminate]. injection H as <-. eapply cumulative_wf; eassumption.
-  - destruct (diff r sc keepaxis n a) eqn:E; simpl in H; [|discriminate]. injection H as <-. eapply diff_wf; eassumption.
-  - destruct r; [eapply argext_axis_wf; eassumption | eapply argext_all_wf; eassumption].
-  - destruct (dropna r minvalid a) eqn:E; simpl in H; [|discriminate]. injection H as <-. eapply dropna_wf; eassumption.
-  - destruct (fillna c k a) eqn:E; simpl in H; [|discriminate]. injection H as <-. eapply fillna_wf; eassumption.
-  - destruct (setna vs a) eqn:E; simpl in H; [|discriminate]. injection H as <-. eapply setna_wf; eassumption.
-  - destruct (setna_mask m a) eqn:E; simpl in H; [|discriminate]. injection H as <-. eapply setna_mask_wf; eassumption.
-  - destruct (take_axis_label ls r a) eqn:E; simpl in H; [|discriminate]. injection H as <-. eapply take_axis_label_wf; eassumption.
-  - destruct (take_axis_position zs r a) eqn:E; simpl in H; [|discriminate]. injection H as <-. eapply take_axis_position_wf; eassumption.
-  - destruct (axis_info a r) as [i|]; simpl in H; [|discriminate].
-    destruct (compress_axis m i a) eqn:E; simpl in H; [|discriminate]. injection H as <-. eapply compress_axis_wf; eassumption.
-  - destruct (interp_axis k news r left right a) eqn:E; simpl in H; [|discriminate]. injection H as <-. eapply interp_axis_wf; eassumption.
-  - destruct (interp_like others left right a) eqn:E; simpl in H; [|discriminate]. injection H as <-. eapply interp_like_wf; eassumption.
-  - destruct (axis_info a r) as [i|]; simpl in H; [|discriminate]. destruct (String.eqb_spec n ""); [discriminate|].
-    injection H as <-. apply rename_axis_wf; [exact Hw | assumption |]. apply negb_true_iff in Hc. apply mem_str_false. exact Hc.
-  - destruct (axis_info a r) as [j|]; simpl in H; [|discriminate].
-    destruct (py_index _ i) as [p|] eqn:Ep; simpl in H; [|discriminate]. injection H as <-. apply set_label_wf; [exact Hw|].
-    apply (py_index_lt _ _ _ Ep).
-  - destruct (negb (_ =? _)) eqn:El; [discriminate|]. destruct (negb (distinct_str ns)) eqn:Ed; [discriminate|].
-    destruct (existsb _ ns) eqn:Ee; [discriminate|]. injection H as <-.
-    apply negb_false_iff in El, Ed. apply Nat.eqb_eq in El. apply set_dims_wf; assumption.
-  - injection H as <-. exact Hw.
-Qed.
-
-(* programs: every intermediate and the final result are well-formed *)
-Fixpoint prog_covered (ins : list darr) (ops : list op) (a : darr) : bool :=
-  match ops with
-  | [] => true
-  | o :: t => covered a o && match apply_op ins o a with Ok (VArr b) => prog_covered ins t b | _ => true end
-  end.
-Theorem run_ops_wf ins ops : Forall WF ins -> forall a v, WF a -> prog_covered ins ops a = true -> run_ops ins ops a = Ok v -> WFv v.
-Proof.
-  intros Hins. induction ops as [|o t IH]; intros a v Hw Hc H; simpl in H.
-  - injection H as <-. exact Hw.
-  - simpl in Hc. apply andb_true_iff in Hc. destruct Hc as [Hc1 Hc2]. destruct t as [|o2 t'].
-    + eapply apply_op_wf; eassumption.
-    + destruct (apply_op ins o a) as [w|] eqn:E; simpl in H; [|discriminate]. destruct w; try discriminate.
-      apply (IH a0); [apply (apply_op_wf ins o a (VArr a0) Hins Hw Hc1 E) | exact Hc2 | exact H].
-Qed.
-
 (* ================================================================== constructors *)
 Lemma NoDup_snoc {A} (l : list A) x : NoDup l -> ~ In x l -> NoDup (l ++ [x]).
 Proof.
